@@ -167,12 +167,39 @@ TypeOf(key) ==
     [] key = "OptTwo"   -> Plain(Opt(Named("Two")))
     [] key = "VecTwo"   -> Plain(Vec(Named("Two")))
     [] key = "VecOptI"  -> Plain(Vec(Opt(I32)))
+    \* recognizer reuse: the 2nd and later elements / values are read by a recognizer that has been reset()
+    [] key = "VecHdrBoth"  -> Plain(Vec(Named("HdrBoth")))
+    [] key = "MapHdrBoth"  -> Plain(Map(I32, Named("HdrBoth")))
+    [] key = "OptHdrBoth"  -> Plain(Opt(Named("HdrBoth")))
+    [] key = "CollHdr"     -> Struct("CollHdr", "named", <<F("xs", "xs", "slot", Vec(Named("HdrBoth"))),
+                                                          F("o", "o", "slot", Opt(Named("HdrBoth")))>>)
+    [] key = "VecHdrSlots" -> Plain(Vec(Named("HdrSlots")))
+    [] key = "VecHdrBody"  -> Plain(Vec(Named("HdrBody")))
+    [] key = "VecHdrVec"   -> Plain(Vec(Named("HdrVec")))
+    [] key = "VecHdrNest"  -> Plain(Vec(Named("HdrNest")))
+    [] key = "VecHdrOpt"   -> Plain(Vec(Named("HdrOpt")))
+    [] key = "VecWithAttr" -> Plain(Vec(Named("WithAttr")))
+    [] key = "VecTwoAttrs" -> Plain(Vec(Named("TwoAttrs")))
+    [] key = "VecBodyNest" -> Plain(Vec(Named("BodyNest")))
+    [] key = "VecBodyStr"  -> Plain(Vec(Named("BodyStr")))
+    [] key = "VecShape"    -> Plain(Vec(Named("Shape")))
+    [] key = "VecOpSI"     -> Plain(Vec(Named("OpSI")))
+    [] key = "VecTagField" -> Plain(Vec(Named("TagField")))
+    [] key = "VecTup"      -> Plain(Vec(Named("Tup")))
+    [] key = "VecOpt"      -> Plain(Vec(Named("Opt")))
+    [] key = "MapShape"    -> Plain(Map(STR, Named("Shape")))
+
+\* collections whose element type carries the header / attribute / body combinations
+ReuseKeys == {"VecHdrBoth", "MapHdrBoth", "OptHdrBoth", "CollHdr", "VecHdrSlots", "VecHdrBody", "VecHdrVec", "VecHdrNest", "VecHdrOpt",
+              "VecWithAttr", "VecTwoAttrs", "VecBodyNest", "VecBodyStr", "VecShape", "VecOpSI", "VecTagField", "VecTup", "VecOpt",
+              "MapShape"}
 
 AllKeys == {"Unit", "Simple", "Two", "Tup", "Renamed", "TupRen", "WithAttr", "TwoAttrs", "HdrBody", "HdrSlots", "HdrOpt",
             "AttrVec", "AttrMap", "HdrBoth", "HdrVec", "HdrNest", "BodyVec", "BodyStr", "BodyNest", "Skippy", "SkipTup", "Opt", "Coll",
             "GenI", "GenS", "GenTwo", "GenOptTwo", "Nested", "VecNest", "NewT", "NewS", "TagField", "Shape",
             "OpSI", "OpITwo", "ConvStruct", "ConvEnum", "Nums", "ModelVal", "WithValue", "BodyValue", "HdrValue",
-            "i32", "u64", "f64", "bool", "String", "VecI", "OptI", "MapSI", "PairIS", "OptTwo", "VecTwo", "VecOptI"}
+            "i32", "u64", "f64", "bool", "String", "VecI", "OptI", "MapSI", "PairIS", "OptTwo", "VecTwo", "VecOptI"} \cup ReuseKeys
+
 
 LevelNames == {"Info", "Warn"}
 
@@ -209,7 +236,7 @@ PrimDom(p, d) ==
       [] p = "u32"    -> IF d = 0 THEN {Sym("i", "0"), Sym("i", "1")} ELSE {Sym("i", "0")}
       [] p = "u64"    -> IF d = 0 THEN {Sym("i", "0"), Sym("g", "0")} ELSE {Sym("g", "0")}
       [] p = "f64"    -> IF d = 0 THEN {Sym("f", "0"), Sym("f", "1")} ELSE {Sym("f", "0")}
-      [] p = "bool"   -> IF d <= 1 THEN {Sym("b", "0"), Sym("b", "1")} ELSE {Sym("b", "0")}
+      [] p = "bool"   -> IF d <= 2 THEN {Sym("b", "0"), Sym("b", "1")} ELSE {Sym("b", "0")}
       [] p = "string" -> IF d = 0 THEN {Sym("s", "0"), Sym("s", "1")} \cup (IF big THEN {Sym("s", "2")} ELSE {})
                          ELSE {Sym("s", "0")}
       [] p = "level"  -> {Txt(n) : n \in LevelNames}
